@@ -595,6 +595,7 @@ func c13Scope(c *mon.Ctx, r *mon.Rand) {
 	}
 	gotCtr := map[string]int64{}
 	gotGLast := map[string]uint64{}
+	gotGTs := map[string]int64{}
 	gotGAll := map[string][]uint64{}
 	gotTimers := map[string]map[int64]int{}
 	gotH := map[string]map[int]int64{}
@@ -629,7 +630,12 @@ func c13Scope(c *mon.Ctx, r *mon.Rand) {
 					gotCtr[id] += met.Value.Count
 				}
 			case m3thrift.MetricType_GAUGE:
-				gotGLast[id] = math.Float64bits(met.Value.Gauge)
+				// "last" by the reporter's own timestamp, not by arrival: loopback
+				// datagrams can overtake each other between CPUs
+				if met.Timestamp >= gotGTs[id] {
+					gotGTs[id] = met.Timestamp
+					gotGLast[id] = math.Float64bits(met.Value.Gauge)
+				}
 				gotGAll[id] = append(gotGAll[id], math.Float64bits(met.Value.Gauge))
 			case m3thrift.MetricType_TIMER:
 				if gotTimers[id] == nil {
